@@ -50,6 +50,9 @@ def generate(rng, tier):
         # best_match must order by the same comparison: glob pattern matching both
         sa = [enc(a), enc(b)]
         cases.append(Case("pat.best", [enc("p-*"), enc("p-" + a), enc("p-" + b)], meta={"a": a, "b": b, "best": True}))
+        # hyphenated, different bases: best_match compares what follows the LAST '-'
+        b1, b2 = rng.choice([("foo-b", "foo-a"), ("x-9", "x-1"), ("lib-alpha", "lib-beta"), ("a-2.0", "a-1")])
+        cases.append(Case("pat.best", [enc("*"), enc(b1 + "-" + a), enc(b2 + "-" + b)], meta={"a": a, "b": b, "best": True}))
     if tier == "thorough":
         # every string of length <= 3 over a 14-symbol alphabet against a panel
         alpha = "019._abnArcpl"
